@@ -1558,13 +1558,16 @@ class ContactHandler(Messenger, dbus.service.Object):
     @dbus.service.method(DBUS_IFACE, in_signature='ss', out_signature='')
     def recv_bundle_pop_file(self, bid, filepath):
         bid = int(bid)
-        item = self._rx_map.pop(bid)
-        self._rx_bundles.remove(item)
-        item.file.seek(0)
+        item = self._rx_map[bid]
 
         import shutil
-        out_file = open(filepath, 'wb')
-        shutil.copyfileobj(item.file, out_file)
+        # the transfer stays in the queue unless it could be written out
+        with open(filepath, 'wb') as out_file:
+            item.file.seek(0)
+            shutil.copyfileobj(item.file, out_file)
+
+        del self._rx_map[bid]
+        self._rx_bundles.remove(item)
 
     def send_buffer_decreased(self, buf_use):
         if self._send_segment_size is None:
